@@ -12,6 +12,11 @@ def rules_suffix(pid):
     try:
         mod = importlib.import_module('props.' + pid)
         ids = list(getattr(mod, 'RULES', {}))
+        try:
+            ev = json.load(open(os.path.join(HERE, 'evidence', pid + '.json')))['coverage'].get('rules') or {}
+            ids += [k for k in ev if k not in ids]
+        except (OSError, ValueError, KeyError):
+            pass
     except Exception:
         ids = []
     return (' Rules evaluated (texts in RULES.md): ' + ', '.join(ids) + '.') if ids else ''
